@@ -376,6 +376,14 @@ def _tables(recipe, obj):
         for j in range(3):
             t[f"parent_to_relative_pos:p{j}"] = (lambda j: lambda o, c: o.parent_to_relative_pos(o.start + j * 2))(j)
             t[f"relative_to_parent_pos:r{j}"] = (lambda j: lambda o, c: o.relative_to_parent_pos(j * 3))(j)
+        # positions in LATER blocks and at block edges (a walk that remembers where the previous question ended must
+        # still answer a question about an earlier / overlapping block as a fresh object does)
+        t["parent_to_relative_pos:e1"] = lambda o, c: o.parent_to_relative_pos(o.end - 1)
+        t["parent_to_relative_pos:e3"] = lambda o, c: o.parent_to_relative_pos(max(o.start, o.end - 3))
+        t["parent_to_relative_pos:b1s"] = lambda o, c: o.parent_to_relative_pos(o.blocks[min(1, len(o.blocks) - 1)].start)
+        t["parent_to_relative_pos:b1s+1"] = lambda o, c: o.parent_to_relative_pos(o.blocks[min(1, len(o.blocks) - 1)].start + 1)
+        t["parent_to_relative_pos:b0e-1"] = lambda o, c: o.parent_to_relative_pos(max(o.start, o.blocks[0].end - 1))
+        t["relative_to_parent_pos:last"] = lambda o, c: o.relative_to_parent_pos(max(0, len(o) - 1))
         t["relative_interval_to_parent_location:1,3"] = \
             lambda o, c: o.relative_interval_to_parent_location(1, 3, Strand.PLUS)
         t["scan_windows:3,2"] = lambda o, c: o.scan_windows(3, 2)
